@@ -288,6 +288,53 @@ func checkC18(c *an.Ctx) {
 			// the task argument comes from a lookup in Config.Tasks whose absence returns an error
 			taskArg := site.Common().Args[len(site.Common().Args)-1]
 			good := false
+			// (ii) the lookup behind an accessor of the configuration: t, ok := cfg.lookupTask(name), with the
+			// accessor returning the two results of one comma-ok lookup in Config.Tasks
+			for _, src := range an.Sources(taskArg) {
+				e, ok := src.(*ssa.Extract)
+				if !ok || e.Index != 0 {
+					continue
+				}
+				call, ok := e.Tuple.(*ssa.Call)
+				if !ok {
+					continue
+				}
+				callees := p.Callees(&call.Call)
+				accessor := len(callees) > 0
+				for _, callee := range callees {
+					if callee.Blocks == nil || callee.Signature.Results().Len() != 2 {
+						accessor = false
+						break
+					}
+					for _, ret := range an.Returns(callee) {
+						v0, ok0 := an.RetVal(ret, 0).(*ssa.Extract)
+						v1, ok1 := an.RetVal(ret, 1).(*ssa.Extract)
+						if !ok0 || !ok1 || v0.Tuple != v1.Tuple || v0.Index != 0 || v1.Index != 1 {
+							accessor = false
+							continue
+						}
+						lk, isLk := v0.Tuple.(*ssa.Lookup)
+						if !isLk || !lk.CommaOk || an.FieldProv(lk.X) != "Config.Tasks" {
+							accessor = false
+						}
+					}
+				}
+				if !accessor {
+					continue
+				}
+				for _, g := range an.Guards(site.Block()) {
+					if ge, ok := g.Cond.(*ssa.Extract); ok && ge.Tuple == ssa.Value(call) && ge.Index == 1 && g.Outcome {
+						good = true
+					}
+					if x, eq, isNil := an.NilTest(g.Cond); isNil && (eq != g.Outcome) {
+						for _, s2 := range an.Sources(x) {
+							if s2 == src {
+								good = true
+							}
+						}
+					}
+				}
+			}
 			for _, src := range an.Sources(taskArg) {
 				e, ok := src.(*ssa.Extract)
 				var l *ssa.Lookup
@@ -341,8 +388,8 @@ func checkC18(c *an.Ctx) {
 				continue
 			}
 			prov := an.FieldProv(garg)
-			if _, isParam := an.Resolve(garg).(*ssa.Parameter); isParam {
-				// follow the parameter to the arguments of the callers (through wrappers of cmd/taskctl)
+			if !strings.HasPrefix(prov, "Config.Pipelines[") {
+				// follow a parameter (or a field of an options struct) to the arguments of the callers (through wrappers of cmd/taskctl)
 				okAll := true
 				srcs := p.DeepSources(garg, 4, true)
 				for _, src := range srcs {
